@@ -646,8 +646,22 @@ def serveStep (x : SrvSt) : M (Step SrvSt (Sock × List Req)) :=
       let acc := if cstr r.method == sOptions then x.acc else r :: x.acc
       if ans.2 then pure (.done (ans.1, acc.reverse)) else pure (.next ⟨ans.1, acc⟩)
 
-/-- the requests handed to the application, in order, and the final socket state -/
-def serve (s : Sock) : M (Sock × List Req) := iterate serveStep (s.inp.length + 1) ⟨s, []⟩
+/-- the `while` loop of `HttpServer::serve`: the requests handed to the application, in order, and the socket at its exit -/
+def serveLoop (s : Sock) : M (Sock × List Req) := iterate serveStep (s.inp.length + 1) ⟨s, []⟩
+
+/-- `closeBehind(client)` (Http.cpp, C10's 7f6f841), with which `HttpServer::serve` ends every connection: nothing on a
+    socket the reader has closed already; else the send side is shut down (`out` is complete), what the peer still
+    sent is read and dropped until its end (the peer has closed its side: at once), and the socket is closed -/
+def closeBehind (s : Sock) : Sock :=
+  if s.closed then s
+  -- a socket in error: `waitInput` marks it BAD_DATA and `available()` is negative, nothing is read
+  else if s.err != 0 then { s with err := 6, closed := true }
+  else { s with inp := [], closed := true }
+
+/-- `HttpServer::serve(Socket client)`: the loop, then the connection is ended -/
+def serve (s : Sock) : M (Sock × List Req) := do
+  let r ← serveLoop s
+  pure (closeBehind r.1, r.2)
 
 /-! ## `HttpServer::serveFile`: from the request path to the file under the root -/
 
